@@ -49,23 +49,24 @@ Theorem C37_flood_below_stays_open : forall limit ids,
 Proof. exact flood_below_stays_open. Qed.
 Print Assumptions C37_flood_below_stays_open.
 
-(* The executable predicate the harness evaluates on the implementation's samples (counter = queue length, open =>
-   <= limit, never > limit + 2, closed stays closed) holds of the model's own output on every decodable input. *)
-Theorem C37_prop_of_model : forall limit stall ops,
-  0 <= limit -> 0 <= stall ->
-  run_C37 (VL [VZ limit; VZ stall; VL ops]) <> VErr 0 ->
-  prop_C37 (VL [VZ limit; VZ stall; VL ops]) (run_C37 (VL [VZ limit; VZ stall; VL ops])) = true.
-Proof. exact prop_C37_of_model. Qed.
-Print Assumptions C37_prop_of_model.
+(* THE central statement.  wf_C37 i (executable): i = [limit stall ops] with limit, stall >= 0, every operation decodable
+   and the drain operation [7] only in last position -- what the generator produces.  On every such input the model's
+   own observation run_C37 i satisfies the executable predicate prop_C37 that the harness evaluates on the
+   implementation's samples (counter = number of pending control frames; open => at most limit; never more than
+   limit + 2; closed stays closed).  kf_C37 is constantly 0: no finding class. *)
+Theorem C37_central : forall i, wf_C37 i = true -> kf_C37 i = 0 -> prop_C37 i (run_C37 i) = true.
+Proof. exact prop_C37_central. Qed.
+Print Assumptions C37_central.
 
 (* Non-vacuity: a flood across a limit of 5 with a blocked handler and a 2-frames-per-iteration event closes the
-   connection at 7 = limit + 2 pending frames; a flood below the limit drains in FIFO order. *)
+   connection at 7 = limit + 2 pending frames; a flood below the limit drains in FIFO order
+   and leaves the counter at 0.  The first input is a generated-style case and satisfies wf_C37. *)
 Example C37_example_flood :
   let i := VL [VZ 5; VZ 0; VL [VL [VZ 1; VZ 5]; VL [VZ 5; VZ 1]; VL [VZ 4; VZ 1; VZ 77]; VL [VZ 7]]] in
-  run_C37 i = VL [vLZ [0;0;0;0]; vLZ [5;5;0;0]; vLZ [5;5;1;0]; vLZ [7;7;-1;1]; VL [VZ 7; VL []]]
-  /\ prop_C37 i (run_C37 i) = true.
+  run_C37 i = VL [vLZ [0;0;0;0]; vLZ [5;5;0;0]; vLZ [5;5;1;0]; vLZ [7;7;-1;1]; VL [VZ 7; VL []]; vLZ [7;7;-1;1]]
+  /\ wf_C37 i = true /\ prop_C37 i (run_C37 i) = true.
 Proof. exact ex_flood_input. Qed.
 Example C37_example_drain :
   let i := VL [VZ 10; VZ 2; VL [VL [VZ 1; VZ 3]; VL [VZ 4; VZ 1; VZ 77]; VL [VZ 7]]] in
-  run_C37 i = VL [vLZ [0;0;0;0]; vLZ [3;3;0;0]; vLZ [5;5;0;0]; VL [VZ 7; vLZ [1;2;3;0;-77;MARKER]]].
+  run_C37 i = VL [vLZ [0;0;0;0]; vLZ [3;3;0;0]; vLZ [5;5;0;0]; VL [VZ 7; vLZ [1;2;3;0;-77;MARKER]]; vLZ [0;0;0;0]].
 Proof. exact ex_drain_input. Qed.
